@@ -35,3 +35,22 @@ func Harness_C19_JSONPatch() {
 	}
 	c19Apply([]interface{}{op})
 }
+
+// Harness_C19_JSONPatchMembers: members that are present but JSON null or of the wrong JSON type, for every
+// operation kind (pointers fixed).
+func Harness_C19_JSONPatchMembers() {
+	kinds := []string{"add", "remove", "replace", "test", "move", "copy"}
+	op := map[string]interface{}{"op": kinds[verifrt.Choose("kind", len(kinds))], "path": "/x/y", "from": "/alsoKnownAs", "value": "v"}
+	odd := []interface{}{nil, 7.0, true, []interface{}{}, map[string]interface{}{}}[verifrt.Choose("odd-value", 5)]
+	member := []string{"path", "from", "op", "value"}[verifrt.Choose("odd-member", 4)]
+	if verifrt.Choose("odd-or-absent", 2) == 0 {
+		op[member] = odd
+	} else {
+		delete(op, member)
+	}
+	var entry interface{} = op
+	if verifrt.Choose("entry-kind", 4) == 1 {
+		entry = odd // the operation itself is not an object
+	}
+	c19Apply([]interface{}{entry})
+}
